@@ -5,6 +5,7 @@ import LiquidModel.Drv.C04
 import LiquidModel.Drv.C05
 import LiquidModel.Drv.C06
 import LiquidModel.Drv.C07
+import LiquidModel.Drv.C09
 import LiquidModel.Drv.C10
 import LiquidModel.Drv.C18
 import LiquidModel.Drv.C16
@@ -26,6 +27,9 @@ def dispatch (op : String) : Option (List String → String) :=
   | "c05" => some c05Op
   | "c06" => some c06Op
   | "lit" => some litOp
+  | "c09" => some c09Op
+  | "c19" => some c19Op
+  | "c20" => some c20Op
   | "sink" => some (sinkOp baseFilters)
   | "stack" => some stackOp
   | "c16esc" => some c16EscOp
